@@ -4,20 +4,21 @@ import Cqos.Facts.Defs
   goroutines or called by the user (`main`, `loop`, `loopUntimeouted`, `transfer`, the handlers
   of the simplified disciplines, `Stop`, `GracefulStop`, `Release`, `AddInput`, `RemoveInput`):
   the steppers call the functions *inside* them one at a time and the step machines of
-  Cqos/Sched.lean, Join.lean, Limit.lean encode how these glue functions compose them.  The
-  table `callseq` (regenerated from /repo on every run) holds, for each of them, the calls made
-  through the receiver (with their argument text), channel operations, `time.*` calls and the
-  control skeleton, in source order; the theorems below pin it to the composition the machines
-  assume.  A change of the glue (a reordered call, another argument, an extra branch) breaks
-  the obligation of the properties that rely on that composition; the black-box scenarios then
-  look for a failing input.
+  Cqos/Sched.lean, Join.lean, Limit.lean, Simple.lean, SimpleV1.lean encode how these glue
+  functions compose them.  The table `callseq` (regenerated from /repo on every run) holds, for
+  each of them, the calls made through the receiver (with their argument text), channel
+  operations, `time.*` calls and the control skeleton, in source order, with local variables
+  renamed `$1, $2, …` in order of first appearance; the theorems below pin it to the
+  composition the machines assume.  A change of the glue (a reordered call, another argument,
+  an extra branch) breaks the obligation of the properties that rely on that composition; the
+  black-box scenarios then look for a failing input.
 -/
 namespace Cqos.Facts
 
 def glueLimitExpected : List (String × String × String × List String) := [
   ("v2/limit", "Discipline", "main", ["dsc.loop()"]),
-  ("v2/limit", "Discipline", "loop", ["for", "dsc.transfer()", "if stop", "return", "dsc.delay(duration)"]),
-  ("v2/limit", "Discipline", "transfer", ["time.Now()", "if stop", "dsc.pass()", "return", "return", "time.Since(startedAt)"])
+  ("v2/limit", "Discipline", "loop", ["for", "dsc.transfer()", "if $2", "return", "dsc.delay($1)"]),
+  ("v2/limit", "Discipline", "transfer", ["time.Now()", "if $2", "dsc.pass()", "return", "return", "time.Since($1)"])
 ]
 
 /-- limit: `main` = `loop` then close (deferred); `loop` = transfer, stop test, `delay(duration)`; `transfer` = clock reading, `pass`, elapsed time -/
